@@ -103,7 +103,9 @@ func extractType2(c pdf.Cursor, dict pdf.Dict, isDirect bool) (*pattern.Type2, e
 
 	// extract optional Matrix
 	pat.Matrix, err = c.Matrix(dict["Matrix"])
-	if err != nil {
+	if pdf.IsReadError(err) {
+		return nil, err
+	} else if err != nil {
 		pat.Matrix = matrix.Identity
 	}
 
@@ -183,7 +185,9 @@ func extractType1(c pdf.Cursor, stream *pdf.Stream) (*pattern.Type1, error) {
 
 	// extract optional Matrix
 	pat.Matrix, err = c.Matrix(dict["Matrix"])
-	if err != nil {
+	if pdf.IsReadError(err) {
+		return nil, err
+	} else if err != nil {
 		pat.Matrix = matrix.Identity
 	}
 
